@@ -526,3 +526,35 @@ func VerifC12Nested() {
 	vassert(err == nil, "a value built from registered types only is serialised and read back without an error")
 	vassert(c12Eq(v, r), "nested value in interface-typed positions: deserialised value is deeply equal to the serialised one, with the identical dynamic type")
 }
+
+type c12V1 struct {
+	ID string
+	N  int
+}
+type c12V2 struct {
+	ID string
+	N  int
+}
+
+// two types registered under one name (the second registration is refused and its error ignored, as eino's own
+// init code does): a value of the refused type either fails loudly or comes back as itself, never as the other type
+func VerifC12NameClash() {
+	c12Reg()
+	e1 := GenericRegister[c12V1]("c12_order")
+	e2 := GenericRegister[c12V2]("c12_order")
+	vassert(e1 == nil && e2 != nil, "the second registration under a taken name is refused")
+	n := vsymInt("n")
+	var v any = c12V2{ID: "o", N: n}
+	if vchoose("nested", 2) == 1 {
+		v = map[string]any{"k": c12V2{ID: "o", N: n}}
+	}
+	r, err := c12Round(v)
+	if err != nil {
+		return // failing loudly is what the property asks for
+	}
+	if m, ok := r.(map[string]any); ok {
+		r = m["k"]
+	}
+	got, ok := r.(c12V2)
+	vassert(ok && got.N == n && got.ID == "o", "a value that is written comes back with the identical dynamic type")
+}
